@@ -4,7 +4,7 @@
    every hash function, every scriptSig and every witness: acceptance by the model of
    Tx.verify_input implies the authorisation predicate of the spent output type. *)
 From V Require Import Base.Prelude Base.Ints Model.Helper Model.Script Model.Op Model.Interp
-  Model.Pecc Model.Taproot Model.Verify Proofs.MultisigP Proofs.VerifyP.
+  Model.Pecc Model.Taproot Model.Verify Proofs.MultisigP Proofs.VerifyP Proofs.TapMultisigP.
 
 (* OP_CHECKMULTISIG's matching loop accepts exactly when the signatures embed, in order, into
    the keys with every pair verifying: m signatures need m distinct keys *)
@@ -132,6 +132,17 @@ Theorem C06_p2tr_keypath_complete :
   verify_input C ripemd160 sha1 sha256 hash160 hash256 so c [sg] [] (p2tr_script x) = OTrue.
 Proof. exact p2tr_keypath_complete. Qed.
 Print Assumptions C06_p2tr_keypath_complete.
+
+(* k-of-n tapscript <x1> CHECKSIG <x2> CHECKSIGADD ... OP_k OP_EQUAL (MultiSigTapScript, n >= 2):
+   accepted only if every (key, signature) pair could be evaluated and exactly k of them verify *)
+Theorem C06_tap_multisig_sound :
+  forall C ripemd160 sha1 sha256 hash160 hash256 so c witness k x1 xs fuel sigs r a,
+  1 <= k <= 16 -> length sigs = S (length xs) ->
+  vloop C ripemd160 sha1 sha256 hash160 hash256 so c witness fuel
+    (tap_multisig_script k (x1 :: xs)) (sigs ++ r) a (fl_off true) = OTrue ->
+  count_ok so (x1 :: xs) sigs = Ok k.
+Proof. exact tap_multisig_sound. Qed.
+Print Assumptions C06_tap_multisig_sound.
 
 (* non-vacuity: with an oracle that accepts one (key, signature) pair the hypotheses of the
    soundness theorems are met by a concrete accepted spend *)
